@@ -17,7 +17,7 @@ EXPLANATION = (
 ASSUMPTIONS = [
     "a load's event program does not depend on the interleaving (straight-line code; the recorded programs are compared between two recordings)",
     "atomicity of single Python-level operations (GIL); module-level shared state is visible only through the file handles / locks it touches",
-    "2-3 concurrent loads of the recorded selections (same chunk, different chunks, overlapping, two variables, pickled copy)",
+    "2-3 concurrent loads of the recorded selections (same chunk, different chunks, overlapping, two/three variables, pickled copy), on a filesystem with independent handles (local files) and on one whose opens share one file object and position (fsspec memory://)",
 ]
 TRUSTED = ["z3 5.1", "vlib.sched event model (file position per handle, lock exclusion)", "xarray's LazilyIndexedArray / explicit_indexing_adapter (executed, not modelled)"]
 F = ["ceos_alos2.xarray:LazilyIndexedWrapper.__getitem__", "ceos_alos2.xarray:LazilyIndexedWrapper._raw_indexing_method", "ceos_alos2.xarray:to_variable",
@@ -33,6 +33,46 @@ def obligations(tier):
     return [Ob(f"C19.{n.replace('/', '.')}", "S", f"scenario {n}: no schedule of the recorded open/seek/read/close/lock/attribute events lets a load see other bytes than sequentially; "
                "no lock-order cycle", F, bounds=f"all interleavings of the events of {len(sched.SCENARIOS[n])} loads ({sched.SCENARIOS[n]})", call="props.c19:ob_scenario",
                kwargs={"scenario": n}, wall_timeout=600) for n in names]
+
+
+def validate_stubs():
+    """the two filesystem models of the schedule engine against fsspec: local files give every open its own handle and position;
+    memory:// hands out ONE file object per path, rewound on open, still usable after close()"""
+    import os
+    import tempfile
+
+    import fsspec
+
+    mem = fsspec.filesystem("memory")
+    mem.pipe_file("/vc19/a", b"0123456789")
+    f1 = mem.open("/vc19/a", "rb")
+    f1.seek(5)
+    f2 = mem.open("/vc19/a", "rb")
+    assert f1 is f2 and f1.tell() == 0, "fsspec memory filesystem no longer shares file objects: the shared-handle model is obsolete"
+    f1.close()
+    assert mem.open("/vc19/a", "rb").read(3) == b"012"
+    mem.rm("/vc19/a")
+    d = tempfile.mkdtemp(prefix="vc19_")
+    try:
+        path = os.path.join(d, "a")
+        open(path, "wb").write(b"0123456789")
+        loc = fsspec.filesystem("file")
+        g1 = loc.open(path, "rb")
+        g1.seek(5)
+        g2 = loc.open(path, "rb")
+        assert g1 is not g2 and g1.tell() == 5 and g2.tell() == 0
+        g1.close()
+        try:
+            g1.read(1)
+            raise AssertionError("read of a closed local file did not raise")
+        except ValueError:
+            pass
+        g2.close()
+    finally:
+        import shutil
+
+        shutil.rmtree(d, ignore_errors=True)
+    return {"fsspec file models": "local: own handle and position per open, read after close raises; memory: one shared file object per path, rewound on open"}
 
 
 def ob_scenario(tier, scenario):
